@@ -28,6 +28,7 @@ type target struct {
 	samples func(w *World) [][]Seg  // valid inputs as grammar segments (perturbation classes apply) ...
 	raw     func(w *World) [][]byte // ... or as plain byte strings (mutations only)
 	call    func(w *World, b []byte)
+	noPref  bool // the samples are an enumeration already: no prefixes of them
 }
 
 func one(s []Seg) [][]Seg { return [][]Seg{s} }
@@ -148,6 +149,7 @@ var targets = []target{
 			tx.Spent_outputs = []*btc.TxOut{{Pk_script: tr, Value: 50e8}}
 			script.VerifyTxScript(tr, &script.SigChecker{Tx: tx, Idx: 0, Amount: 50e8}, script.STANDARD_VERIFY_FLAGS)
 		}},
+	{name: "script.VerifyTxScript(witness shapes)", raw: witnessShapes, call: runWitnessShape, noPref: true},
 	{name: "script helpers", raw: scriptSamples,
 		call: func(w *World, b []byte) {
 			btc.GetSigOpCount(b, true)
@@ -275,6 +277,9 @@ func libCase(w *World, t *target, seed int64, k int) (data []byte, desc string) 
 			n := len(r)
 			if n > 96 {
 				n = 96
+			}
+			if t.noPref {
+				n = 0
 			}
 			if k < n {
 				return append([]byte(nil), r[:k]...), fmt.Sprintf("sample %d prefix %d", si, k)
@@ -491,9 +496,12 @@ func cmdLib(args []string) {
 				}
 			} else {
 				for _, r := range t.raw(w) {
-					total += 1 + len(r)
-					if len(r) > 96 {
-						total -= len(r) - 96
+					total++
+					if !t.noPref {
+						total += len(r)
+						if len(r) > 96 {
+							total -= len(r) - 96
+						}
 					}
 				}
 			}
